@@ -1,7 +1,7 @@
 (* Corr/C14.v — correspondence cases for C14: the harness supplies inputs and the implementation's
    outcome; the report says, per case, whether the model equals the implementation and whether
    the Excel-side spec equals the model. *)
-Require Import X2P.Base.Prelude X2P.Base.F64 X2P.Base.PyCmp X2P.Base.PyType.
+Require Import X2P.Base.Prelude X2P.Base.F64 X2P.Base.PyCmp X2P.Base.PyType X2P.Base.PyNum.
 Require Import X2P.Model.Lookup X2P.Spec.Lookup.
 Open Scope string_scope.
 Open Scope Z_scope.
